@@ -39,6 +39,7 @@ import Kanzi.Drv.DecForge
 import Kanzi.Drv.AnsDec
 import Kanzi.Drv.HufDec
 import Kanzi.Drv.TextDec
+import Kanzi.Drv.RolzDec
 import Kanzi.Drv.ImageGen3
 
 open Kanzi
@@ -228,6 +229,7 @@ def main (args : List String) : IO UInt32 := do
   | ["ansdec"] => loop stdin stdout Kanzi.Drv.ansdec; return 0
   | ["hufdec"] => loop stdin stdout Kanzi.Drv.hufdec; return 0
   | ["textdec"] => loop stdin stdout Kanzi.Drv.textdec; return 0
+  | ["rolzdec"] => loop stdin stdout Kanzi.Drv.rolzdec; return 0
   | ["imagegen3"] => loop stdin stdout Kanzi.Drv.imagegen3; return 0
   | ["image"] => loop stdin stdout Kanzi.Drv.image; return 0
   | _ => IO.eprintln "usage: kmodel <norm>"; return 2
